@@ -36,6 +36,8 @@ THEOREMS = [
          "its side condition)", strength="partial"),
     dict(name="Snow.C06.shelf_coeff_nonneg", clause="the shelf coefficients handed to the step (clamped draws) are "
          ">= 0 for every draw of the normals (premise of convexity)", strength="full"),
+    dict(name="Snow.C06.ext_nonneg_shape", clause="for every declared shape and both arrangements every vial has a "
+         "non-negative number of external faces (non-negative coupling to the surroundings)", strength="full"),
     dict(name="Snow.C06.side_condition_needed", clause="the side condition is not derivable: a warmed vial with tiny "
          "sigma leaves sigma > 0 in exact arithmetic", strength="boundary-witness"),
     dict(name="Snow.C06.nonvacuous", clause="the stable range is inhabited (default solution, K=20, dt=2)",
@@ -111,9 +113,13 @@ def stable(case, impl, ph):
     L = ph["lam"] * (1 - ph["w_s"])
     gamma = (1 - ph["w_s"]) * ph["lam"] / ph["cp_l"]
     ksh = fu.spec_kshelf(case, impl)   # configured coefficients (clamped at 0), not what the run used
-    Hs = np.array([len(impl["nbrs"][i]) * impl["kInt"] * A + impl["ext"][i] * impl["kExt"] * A
-                   + ksh[i] * A for i in range(n)])
-    coeff = (impl["kInt"] * A >= 0 and all(e * impl["kExt"] * A >= 0 for e in impl["ext"])
+    # declared geometry, not the matrices of the real object
+    arr = impl["arr_arg"]
+    geo = c01.square_nbrs(case["N_vials"]) if arr == "square" else c01.hex_nbrs(case["N_vials"])
+    maxint = (4 if arr == "square" else 6) + (2 if case["N_vials"][2] > 1 else 0)
+    gext = [maxint - len(r) for r in geo]
+    Hs = np.array([len(geo[i]) * impl["kInt"] * A + gext[i] * impl["kExt"] * A + ksh[i] * A for i in range(n)])
+    coeff = (impl["kInt"] * A >= 0 and all(e * impl["kExt"] * A >= 0 for e in gext)
              and bool(np.all(ksh * A >= 0)))
     cfl = float(np.max(2 * dt * Hs) / (ph["m"] * cmin))
     xc = float(np.max((dt * Hs * (hi - lo)) ** 2) / (ph["m"] ** 2 * cmin * ph["D"] * L))
@@ -156,6 +162,10 @@ def monitor(case, impl):
     if (Hsh < 0).any():
         i = int(np.where(Hsh < 0)[0][0])
         v("coefficients_nonneg", -1, i, f"shelf heat-transfer coefficient used by the run is {Hsh[i]!r} < 0")
+    Hex = np.asarray(impl["Hext"])
+    if (Hex < 0).any():
+        i = int(np.where(Hex < 0)[0][0])
+        v("coefficients_nonneg", -1, i, f"external heat-transfer coefficient used by the run is {Hex[i]!r} < 0")
     bad = ~((Xs >= 0) & (Xs < 1))
     if bad.any():
         k, i = np.argwhere(bad)[0]
@@ -302,7 +312,9 @@ def _case(rng, tier):
 
 
 def cases(rng, tier):
-    n, nh, nt = (50, 8, 6) if tier == "quick" else (1300, 120, 50)
+    for _ in range(4 if tier == "quick" else 40):   # controlled nucleation after spontaneous nucleation
+        yield c01._late_cn(rng, tier)
+    n, nh, nt = (46, 8, 6) if tier == "quick" else (1300, 120, 50)
     for _ in range(n):
         yield _case(rng, tier)
     for j in range(nh):   # object histories (second run of a re-configured object)
